@@ -61,11 +61,17 @@ def run_one(lp, S, a):
                 for i, y in enumerate(pool.imap_unordered(f, src)):
                     got.append(y)
                     if stop_after is not None and i + 1 >= stop_after:
-                        break
+                        lk = a.get("leave_kind", "break")      # how the consumer leaves the `with` block early
+                        if lk == "break": break
+                        if lk == "SystemExit": raise SystemExit("consumer leaves")
+                        if lk == "KeyboardInterrupt": raise KeyboardInterrupt("consumer leaves")
+                        if lk == "GeneratorExit": raise GeneratorExit("consumer leaves")
+                        if lk == "BaseException": raise Boom("consumer leaves")
+                        raise RuntimeError("consumer leaves")
         except S.Deadlock:
             status = "DEADLOCK"
-        except (RuntimeError, SystemExit, Boom) as e:
-            status = "raised"
+        except (RuntimeError, SystemExit, KeyboardInterrupt, GeneratorExit, Boom) as e:
+            status = "left" if str(e) == "consumer leaves" else "raised"
             res["exc"] = str(e)
         sch.finish()
         stuck = sch.drain()
@@ -164,6 +170,11 @@ def gen_cases(ctx):
             for i in sorted({0, n // 2, n - 1}) if n else []:
                 cases.append({"T": T, "n": n, "fail": [i], "seed": rng.randrange(1 << 30), "reuse": True,
                               "fail_kind": ["RuntimeError", "SystemExit", "BaseException"][(T + n + i) % 3]})
+            # the consumer leaves the `with` block by an exception of every kind (not only `break`)
+            for j, lk in enumerate(["RuntimeError", "SystemExit", "KeyboardInterrupt", "GeneratorExit", "BaseException"]):
+                n = ns[(j + T) % len(ns)] or P + 1
+                cases.append({"T": T, "n": n, "stop_after": 1 + (j % n), "leave_kind": lk, "seed": rng.randrange(1 << 30), "reuse": True})
+                cases.append({"T": T, "n": None, "stop_after": 1 + j, "leave_kind": lk, "seed": rng.randrange(1 << 30), "reuse": True})
         # infinite source with early exit
         for k in [1, P, P + 3]:
             cases.append({"T": T, "n": None, "stop_after": k, "seed": rng.randrange(1 << 30), "reuse": True})
@@ -182,7 +193,9 @@ def gen_cases(ctx):
             T = rng.choice([1, 2, 3, 4]); n = rng.randrange(0, 3 * T + 6)
             c = {"T": T, "n": n, "seed": rng.randrange(1 << 30), "reuse": rng.random() < 0.3}
             r = rng.random()
-            if r < 0.35 and n: c["stop_after"] = rng.randrange(1, n + 1)
+            if r < 0.35 and n:
+                c["stop_after"] = rng.randrange(1, n + 1)
+                c["leave_kind"] = rng.choice(["break", "break", "RuntimeError", "SystemExit", "KeyboardInterrupt", "GeneratorExit", "BaseException"])
             elif r < 0.6 and n:
                 c["fail"] = sorted({rng.randrange(n) for _ in range(rng.choice([1, 1, 2]))}); c["fail_kind"] = rng.choice(["RuntimeError", "SystemExit", "BaseException"])
             cases.append(c)
@@ -228,6 +241,8 @@ def judge(ctx, r, rep):
         ok = len(r["got"]) == min(stop_after, n) and len(set(r["got"])) == len(r["got"]) and set(r["got"]) <= {x * 10 for x in range(n)}
         if not ok:
             return viol("multiset", f"early exit after {stop_after}: got {r['got']}")
+    if a.get("leave_kind", "break") != "break" and stop_after is not None and not fail and r["status"] != "left":
+        return viol("leave-swallowed", f"the consumer left the pool's context by {a['leave_kind']} after {stop_after} results; outcome {r['status']} {r.get('exc', '')}")
     if len(set(r["got"])) != len(r["got"]):
         return viol("duplicate", f"duplicate results {r['got']}")
     if r["fields"] != [0, True, True]:
@@ -320,7 +335,7 @@ def run(ctx):
         "traces_validated_against_impl": len(results) + len(ores) - len(corr_bad), "labels_replayed": labels_total,
         "measured_T_P": sorted(Ps), "exhaustive_enumerations": exh_info,
         "overlapped_reuse_runs": len(ores), "overlapped_reuse_runs_with_old_workers_interleaved": overlapped,
-        "rule": "real LazyPool under the deterministic scheduler: T in 1..3 (1..5 thorough), n around T and 2T+2, complete passes, early exits, "
+        "rule": "real LazyPool under the deterministic scheduler: T in 1..3 (1..5 thorough), n around T and 2T+2, complete passes, early exits (by `break` and by every kind of exception raised in the consumer's loop body, incl. KeyboardInterrupt/SystemExit/GeneratorExit), "
                 "failing inputs, infinite sources, pool reuse (after draining, and *overlapped*: a second pass started while the abandoned pass's workers are still scheduled, replayed through M-POOL Multi); one random schedule per case (thorough: +300 random cases and exhaustive "
                 "enumeration of all schedules for tiny (T,n)); distinct = distinct label traces with more than 6 labels",
         "samples": [{"case": r["case"], "labels": r["labels"][:40], "status": r["status"], "got": r["got"]} for r in results[:3]],
@@ -328,5 +343,6 @@ def run(ctx):
                                "early_exit": sum(r["case"].get("stop_after") is not None for r in results),
                                "failing": sum(bool(r["case"].get("fail")) for r in results),
                                "infinite": sum(r["case"]["n"] is None for r in results),
-                               "status": {s: sum(r["status"] == s for r in results) for s in ("done", "raised", "DEADLOCK")}},
+                               "status": {s: sum(r["status"] == s for r in results) for s in ("done", "raised", "left", "DEADLOCK")},
+                               "leave_kind": {k: sum(r["case"].get("leave_kind") == k for r in results) for k in ("RuntimeError", "SystemExit", "KeyboardInterrupt", "GeneratorExit", "BaseException")}},
     })
